@@ -75,3 +75,75 @@ def gen_parsed_spec(rng, idx=None):
             seq.append([rng.choice([1, 2, 3, 5, 8, 13, 40]), st])
         sched[wid] = seq
     return {"parsed": {"tests_str": tests_str, "vm_strs": vm_strs, "nets": nets}, "cfg": cfg, "pool": {}, "schedule": sched}
+
+
+class LazyParsedRun(ParsedRun):
+    """The run as `avocado run` really does it: the graph starts with the shared root and the FLAT selected tests only and
+    the REAL `parse_paths_to_object_roots` expands them on demand during the traversal.  The static description for the model
+    is taken from the graph as it stands after the run (all composite nodes hidden initially); independently the eager parse of
+    the same selection is kept (`self.eager_parents`) so that every lazily expanded node can be compared with it."""
+    static_after = True
+
+    def build(self):
+        m, spec = self.m, self.spec
+        sel = spec["parsed"]
+        iso = "/repo/selftests/isolation"
+        if iso not in sys.path:
+            sys.path.insert(0, iso)
+        import unittest_importer  # noqa: F401
+        from avocado_i2n.plugins.loader import TestLoader
+        cfg = spec["cfg"]
+        param_dict = {"test_timeout": cfg.get("test_timeout", 1000), "shared_pool": "/pool/shared",
+                      "swarm_pool": "/pool/swarm", "nets": sel["nets"]}
+        for k in ("max_tries", "max_concurrent_tries", "rerun_status", "stop_status", "pool_filter", "pool_scope", "dry_run"):
+            if cfg.get(k) is not None:
+                param_dict[k] = str(cfg[k])
+        config = {"param_dict": param_dict, "tests_str": sel["tests_str"], "vm_strs": dict(sel["vm_strs"])}
+        self.loader = TestLoader(config=config, extra_params={})
+        # 1. the eager graph of the same input: only names and parent sets are kept
+        eager = m.TestGraph.parse_object_trees(None, config["tests_str"], "", dict(config["vm_strs"]), dict(param_dict))
+        # clones share their name: per name the multiset of parent-name lists
+        self.eager_parents = {}
+        for n in eager.nodes:
+            if len(n.cloned_nodes) > 0:
+                continue   # a clone source is a pass-through placeholder (never runnable); which producer it keeps is parse-order dependent
+            self.eager_parents.setdefault(n.params["name"], []).append(sorted(p.params["name"] for p in n.setup_nodes))
+        # 2. the graph the runner builds for a test suite (TestRunner.run_workers)
+        graph = m.TestGraph()
+        graph.restrs.update(config["vm_strs"])
+        flat = m.TestGraph.parse_flat_nodes(config["tests_str"], dict(param_dict))
+        for n in flat:
+            n.update_restrs(config["vm_strs"])
+        graph.new_nodes(flat)
+        graph.parse_shared_root_from_object_roots(m.Params(param_dict))
+        graph.new_workers(m.TestGraph.parse_workers(m.Params(param_dict)))
+        self.graph = graph
+        self.workers = dict(graph.workers)
+        for w in self.workers.values():
+            w.spawner = object()
+        self.nets = {wid: w.net for wid, w in self.workers.items()}
+        self.root = graph.get_nodes("shared_root", "yes")[0]
+        self.order = []
+        self.nodes, self.node_key, self.flat, self.revealed, self.lazy = {}, {}, {}, set(), False
+        spec.setdefault("workers", [{"id": wid, "swarm": w.swarm_id, "spawner": w.params["nets_spawner"]}
+                                    for wid, w in self.workers.items()])
+        spec.setdefault("run_params", dict(param_dict))
+        return graph
+
+    def lazy_vs_eager(self):
+        """every lazily expanded composite node must have exactly the parents the eager parse gives it (flat placeholder
+        nodes and the edges to them dropped) — returns the list of differences"""
+        diffs = []
+        lazy = {}
+        for n in self.graph.nodes:
+            if n.is_flat() or len(n.cloned_nodes) > 0:
+                continue
+            lazy.setdefault(n.params["name"], []).append(
+                sorted(p.params["name"] for p in n.setup_nodes if not p.is_flat() or p.is_shared_root()))
+        for name, got in lazy.items():
+            want = self.eager_parents.get(name)
+            if want is None:
+                diffs.append((name, "not-in-eager-graph", got))
+            elif sorted(got) != sorted(want):
+                diffs.append((name, sorted(want), sorted(got)))
+        return diffs
